@@ -1693,7 +1693,13 @@ class SiftConfig(collections.abc.MutableMapping):
     def from_yaml_stream(cls, stream):
         """Create and return a new SiftConfig object with options loaded from a yaml stream."""
         ret = cls()
-        ret.store = yaml.load(stream, Loader=yaml.FullLoader)
+        cfg = yaml.load(stream, Loader=yaml.FullLoader)
+        if isinstance(cfg, list) and len(cfg) == 2 and 'sift_type' in cfg[0]:
+            # Output of to_yaml_text - the sift type followed by the options
+            ret.sift_type = cfg[0]['sift_type']
+            ret.store = cfg[1]
+        else:
+            ret.store = cfg
         return ret
 
     def get_func(self):
